@@ -219,7 +219,9 @@ OnPanic(P, m, st, e) ==
       \* C20: a diagnosis is only allowed when the current program really contains a violation
       scratchAborts == SomeOrderAborts(P, Range(st.known), m.res0)
       selfInflicted == m.exp.kind = kind /\ m.exp.own = "" /\ m.exp.kf = ""   \* read-own-write etc.: outside every quantifier
-      v20 == IF kind \in Diag /\ ~scratchAborts /\ ~selfInflicted /\ (m.exp.kind # kind \/ m.exp.kf = "")
+      \* (not judged when a resource changed while the session was open: tasks validated before and after the change
+      \* ran in different states, and the mixture can contain a violation that neither state contains)
+      v20 == IF kind \in Diag /\ ~m.midChange /\ ~scratchAborts /\ ~selfInflicted /\ (m.exp.kind # kind \/ m.exp.kf = "")
              THEN {<<IF m.aborted THEN "C19" ELSE "C20", "spurious_" \o kind>>} ELSE {}
       k20 == IF kind \in Diag /\ ~scratchAborts /\ m.exp.kind = kind /\ m.exp.kf # ""
              THEN {<<"C20", m.exp.kf>>} ELSE {}      \* role-inversion findings are C20's, also after an earlier abort
@@ -472,6 +474,9 @@ OnExecStart(P, m, st, e) ==
                ELSE V(f.t = t, <<"C17", "execution_outside_validation">>)
                     \cup V(f.t # t \/ st.out[t] = NONE \/ f.bad,
                            <<own, "unjustified_execution">>)
+      \* C17: a bottom-up build only executes a task it has announced by a schedule event, unless the execution is the
+      \* direct answer to a require of that very task (new task, task without output)
+      vAnn == IF isBU /\ known /\ f.t # t THEN V(t \in st.queue, <<"C17", "executed_without_schedule_event">>) ELSE {}
       vIdem == IF ~isBU /\ m.clean /\ m.curRoot \in m.prevRoots /\ ~m.aborted /\ m.fault = {} /\ P.fam \in WFFams /\ m.staleTD = {}
                THEN {<<"C02", "not_idempotent">>} ELSE {}
       \* C03: a probe after a complete bottom-up build executes nothing (K1: stale after top-down-then-bottom-up)
@@ -484,7 +489,7 @@ OnExecStart(P, m, st, e) ==
                       !.curop[t] = [k |-> "", x |-> 0, c |-> "", f |-> 0, acc |-> 0],
                       !.vstk = IF f.t = t THEN Append(Front(@), [f EXCEPT !.ex = TRUE]) ELSE @]
       m2 == Bump(Bump(m1, IF isBU THEN "C04" ELSE "C02"), "C08")
-  IN RK(IF probeExec THEN Bump(m2, "C03") ELSE m2, vOnce \cup vJust \cup vIdem \cup v03, k03)
+  IN RK(IF probeExec THEN Bump(m2, "C03") ELSE m2, vOnce \cup vJust \cup vAnn \cup vIdem \cup v03, k03)
 
 OnTaskEnter(P, m, st, e) ==
   R(Bump(m, "C17"), V(m.lastEv = "exec_start" /\ m.lastT \in 1..P.nt /\ P.base[m.lastT] = e.t, <<"C17", "execution_without_event">>))
